@@ -511,7 +511,7 @@ func c08() {
 	run := vlib.NewRun("C08", "exploration")
 	o, ts := mustTargets(run)
 	st := &kernelStats{outcomes: map[string]int64{}, perABI: map[string]int64{}, shapes: map[string]bool{}}
-	n := run.N(160, 5000)
+	n := run.N(640, 15000)
 	vlib.Parallel(n, func(i int) {
 		r := caseRand(run, i)
 		goarch := "amd64"
